@@ -76,6 +76,12 @@ Theorem C02_file_scan : forall f f' boxes, afile_encode f = (f', Ok boxes) -> af
 Proof. exact file_scan. Qed.
 Print Assumptions C02_file_scan.
 
+(* and one level down: behind the 8 header bytes of a written moof / traf, the size fields recover its children *)
+Theorem C02_container_scan : forall ty b kids,
+  lenN ty = 4 -> tiled_container ty b kids -> scan (length kids) (skipn 8 b) = Some kids.
+Proof. exact container_scan. Qed.
+Print Assumptions C02_container_scan.
+
 (* ---- the two state changes of Encode reach a fixed point *)
 Theorem C02_optimize_idem : forall tf tr tf' tr',
   optimize tf tr = Ok (tf', tr') -> optimize tf' tr' = Ok (tf', tr').
